@@ -453,6 +453,61 @@ pub enum Case {
     /// the same case in a process whose log records go to a C callback (redirectionio_log_init_with_callback): every
     /// error / warning path of the library then builds a C string from its message and hands it to the receiver
     Logged(Box<Case>),
+    /// count thresholds: n rules of the SAME rank matched by one request, with ids of the given style, handed to the action
+    /// builder in several orders (sorting, merging and tracing code paths change with the number of elements)
+    ManyMatched(usize, usize),
+}
+
+const ID_STYLES: [&str; 4] = ["numeric and non-numeric ids mixed", "numeric ids", "ids differing in length", "ids with non-ASCII letters and letter case"];
+
+fn many_id(style: usize, i: usize) -> String {
+    match style {
+        0 => match i % 3 {
+            0 => format!("{}", i + 3),
+            1 => format!("{}b", i + 3),
+            _ => format!("n{i:03}"),
+        },
+        1 => format!("{}", (i * 7 + 5) % 1000 + i * 1000),
+        2 => "x".repeat(i % 9 + 1) + &format!("{i}"),
+        _ => format!("{}é{i}", if i % 2 == 0 { "R" } else { "r" }),
+    }
+}
+
+fn run_many_matched(n: usize, style: usize) -> Vec<PanicInfo> {
+    let mut panics = Vec::new();
+    let mut g = Guard { panics: &mut panics };
+    let mut router = Router::<Rule>::default();
+    for i in 0..n {
+        let rule = json!({"id": many_id(style, i), "rank": 10, "source": {"path": "/landing"}, "status_code": if i % 5 == 0 { json!(302) } else { Value::Null }, "target": if i % 5 == 0 { json!(format!("/t{i}")) } else { Value::Null },
+            "header_filters": [{"action": "add", "header": "X-Campaign", "value": format!("c{i}")}], "log_override": if i % 7 == 0 { json!(true) } else { Value::Null }, "reset": i % 11 == 3, "stop": false});
+        if let Ok(rule) = serde_json::from_value::<Rule>(rule) {
+            g.run("Router::insert", || router.insert(rule));
+        }
+    }
+    let request = Request::from_config(&router.config, "/landing".to_string(), Some("h.example".to_string()), Some("https".to_string()), Some("GET".to_string()), None, None);
+    let matched = g.run("Router::match_request", || router.match_request(&request)).unwrap_or_default();
+    let base: Vec<_> = matched.clone();
+    // the matcher's own order, the reverse, rotations and an interleaving: what a hash-map iteration order may produce
+    let mut orders: Vec<Vec<usize>> = vec![(0..base.len()).collect(), (0..base.len()).rev().collect()];
+    for k in [1usize, 7, 13] {
+        orders.push((0..base.len()).map(|i| (i + k) % base.len().max(1)).collect());
+        orders.push((0..base.len()).map(|i| (i * (2 * k + 1)) % base.len().max(1)).collect());
+    }
+    for (oi, order) in orders.iter().enumerate() {
+        let routes: Vec<_> = order.iter().filter_map(|i| base.get(*i).cloned()).collect();
+        let mut action = match g.run(&format!("Action::from_routes_rule[order {oi}]"), || Action::from_routes_rule(routes, &request, None)) {
+            Some(a) => a,
+            None => continue,
+        };
+        g.run("Action::get_status_code", || action.get_status_code(0, None));
+        g.run("Action::filter_headers", || action.filter_headers(vec![], 200, false, None));
+    }
+    g.run("Router::trace_request", || {
+        let traces = router.trace_request(&request);
+        let _ = redirectionio::action::TraceAction::from_trace_rules(&traces, &request);
+    });
+    g.run("Router::get_route", || router.get_route(&request).map(|r| r.priority()));
+    panics
 }
 
 pub fn enumerate_cases(tier: Tier) -> Vec<Case> {
@@ -468,6 +523,11 @@ pub fn enumerate_cases(tier: Tier) -> Vec<Case> {
             for payload in 0..FFI_PAYLOADS {
                 out.push(Case::Ffi(f, mask, payload));
             }
+        }
+    }
+    for n in [8usize, 24, 70, 260] {
+        for style in 0..ID_STYLES.len() {
+            out.push(Case::ManyMatched(n, style));
         }
     }
     // every single deviation and every pointer pattern again with the callback logger installed
@@ -1031,6 +1091,7 @@ pub fn run_case(case: &Case) -> Vec<PanicInfo> {
             install_callback_logger();
             run_case(inner)
         }
+        Case::ManyMatched(n, style) => run_many_matched(*n, *style),
     }
 }
 
@@ -1102,6 +1163,7 @@ fn describe(case: &Case) -> String {
         }
         Case::Ffi(f, mask, payload) => format!("{}(null mask {:#b}, payload variant {})", FFI_FUNCS[*f].0, mask, payload),
         Case::Logged(inner) => format!("with the callback logger installed: {}", describe(inner)),
+        Case::ManyMatched(n, style) => format!("{n} rules of one rank matched by one request, {}", ID_STYLES[*style]),
     }
 }
 
@@ -1113,6 +1175,7 @@ fn field_class(case: &Case) -> String {
         }
         Case::Ffi(f, ..) => FFI_FUNCS[*f].0.to_string(),
         Case::Logged(inner) => format!("callback-logger:{}", field_class(inner)),
+        Case::ManyMatched(..) => "many-matched-rules".to_string(),
     }
 }
 
@@ -1336,6 +1399,7 @@ pub fn run(tier: Tier) -> i32 {
                                 Case::Bundle(d) => d.len() as u64 * 1000 + d.iter().map(|(i, v)| (*i + *v) as u64).sum::<u64>(),
                                 Case::Ffi(_, m, p) => 500 + *m as u64 + *p as u64,
                                 Case::Logged(_) => 5000,
+                                Case::ManyMatched(n, s) => 100 + *n as u64 + *s as u64,
                             };
                             ctx.report(Violation { signature: sig, what, case: json!({"case": case, "tier": tier.name()}), weight });
                         }
@@ -1369,7 +1433,8 @@ pub fn run(tier: Tier) -> i32 {
         .set("fields_with_hostile_alphabet", json!(devs.len()))
         .set("single_deviation_cases", json!(singles))
         .set("ffi_pointer_pattern_cases", json!(ffi_cases))
-        .set("pair_deviation_cases", json!(n - singles - ffi_cases - 1 - cases.iter().filter(|c| matches!(c, Case::Logged(_))).count()))
+        .set("pair_deviation_cases", json!(n - singles - ffi_cases - 1 - cases.iter().filter(|c| matches!(c, Case::Logged(_) | Case::ManyMatched(..))).count()))
+        .set("many_matched_rules_cases", json!(cases.iter().filter(|c| matches!(c, Case::ManyMatched(..))).count()))
         .set("cases_with_callback_logger_installed", json!(cases.iter().filter(|c| matches!(c, Case::Logged(_))).count()))
         .set("not_reproduced_worker_deaths", json!(m.iter().filter(|x| x.contains("did not reproduce")).count()))
         .set("samples", json!(cases.iter().step_by((n / 6).max(1)).take(6).map(describe).collect::<Vec<_>>()))
